@@ -84,7 +84,10 @@ const (
 	kTimeTag = 1 // carries a tag named "time": illegal, dropped
 	kTimeFld = 2 // only field is named "time": illegal, dropped
 	kBadUTF8 = 3 // tag value with invalid UTF-8 (rejected because ValidateKeys is on in typed runs)
+	kTimeExtra = 4 // a typed point that additionally carries a field named "time" (stripped; the point itself is judged as typed)
 )
+
+func isTyped(kind int) bool { return kind == kTyped || kind == kTimeExtra }
 
 func gName(g int) string { return fmt.Sprintf("g%d", g) }
 
@@ -151,6 +154,8 @@ type world struct {
 	shardID uint64
 	backups int
 	arrived map[int]int // rendezvous id -> clients that reached it
+	rcond   *sync.Cond
+	exited  int // clients that finished their program
 	touch  map[[2]int][][2]uint64 // (meas, g) -> intervals of operations that may create or remove the field
 }
 
@@ -180,6 +185,11 @@ func (w *world) options() {
 	opt.Config.MaxIndexLogFileSize = toml.Size([]int{256, 4096, 1 << 20}[cfg.Choose(3, "idxlog")])
 	opt.Config.AggressivePointsPerBlock = toml.Size([]int{10000, 1500, 3000}[cfg.Choose(3, "aggrppb")])
 	opt.CompactionLimiter = limiter.NewFixed(1 + cfg.Choose(3, "compactors"))
+	if r.CfgBool("nocompact") {
+		// no level/full compaction ever gets a slot: every cache snapshot stays a file of its own, so a key ends
+		// up with many overlapping blocks across many generations (the layouts C04/C06 quantify over)
+		opt.CompactionLimiter = limiter.NewFixed(0)
+	}
 	opt.OpenLimiter = limiter.NewFixed(4)
 	opt.SeriesIDSets = sets{}
 	if r.CfgInt("wtyped", 0) > 0 {
@@ -399,8 +409,12 @@ func gen(r *hx.Run) []json.RawMessage {
 			p.K = "wx"
 			n := 1 + o.Choose(6, "npts")
 			for k := 0; k < n; k++ {
-				kind := o.Pick("kind", 12, 1, 1, 1)
-				p.X = append(p.X, [5]int{o.Choose(useSeries, "s"), kind, o.Choose(nGFields, "g"), 1 + o.Choose(4, "y"), o.Choose(nSlots, "t")})
+				kind := o.Pick("kind", 12, 1, 1, 1, 1)
+				g := o.Choose(nGFields, "g")
+				if isTyped(kind) && o.Bool(1, 3, "second-field") {
+					g |= (1+o.Choose(nGFields, "g2"))<<4 | (1+o.Choose(4, "y2"))<<8
+				}
+				p.X = append(p.X, [5]int{o.Choose(useSeries, "s"), kind, g, 1 + o.Choose(4, "y"), o.Choose(nSlots, "t")})
 			}
 		}
 		b, _ := json.Marshal(p)
@@ -444,34 +458,36 @@ func rangeOf(min, max int) (int64, int64) {
 	return slotTS(min), slotTS(max)
 }
 
-// rendezvous holds a client until q clients have reached the operations carrying the same id (or a
-// simulated second has passed: a participant may have stopped after a violation, or ddmin removed it).
+// rendezvous parks a client (in the simulator, not on a timer: goroutines woken by timers of the same virtual
+// instant do not become runnable in an order the simulator controls) until q clients have reached the
+// operations carrying the same id; the scheduler then chooses among all of them.  It gives up as soon as any
+// client has finished its program (a participant may have stopped after a violation, or ddmin removed its op).
 func (w *world) rendezvous(id, q int) {
 	simrt.MuLock(&w.mu, 0)
 	if w.arrived == nil {
 		w.arrived = map[int]int{}
 	}
-	w.arrived[id]++
-	simrt.MuUnlock(&w.mu)
-	for i := 0; i < 150 && !w.r.Aborted && len(w.r.Viol) == 0; i++ {
-		simrt.MuLock(&w.mu, 0)
-		n := w.arrived[id]
-		simrt.MuUnlock(&w.mu)
-		if n >= q {
-			// virtual time only advances when everything is blocked, so the participants that are asleep in
-			// this loop would start after the last arriver has finished: everybody sleeps until a common
-			// instant, and the scheduler then chooses among all of them
-			now := time.Now()
-			simrt.Sleep(now.Truncate(time.Second).Add(2*time.Second).Sub(now), 0)
-			w.r.Probe("probe_new_field_race_started_together")
-			return
-		}
-		if i < 50 {
-			simrt.Sleep(10*time.Millisecond, 0)
-		} else {
-			simrt.Sleep(500*time.Millisecond, 0)
-		}
+	if w.rcond == nil {
+		w.rcond = sync.NewCond(&w.mu)
 	}
+	w.arrived[id]++
+	if w.arrived[id] >= q {
+		w.r.Probe("probe_new_field_race_started_together")
+		simrt.CondBroadcast(w.rcond)
+	}
+	for w.arrived[id] < q && w.exited == 0 {
+		simrt.CondWait(w.rcond, 0)
+	}
+	simrt.MuUnlock(&w.mu)
+}
+
+func (w *world) clientDone() {
+	simrt.MuLock(&w.mu, 0)
+	w.exited++
+	if w.rcond != nil {
+		simrt.CondBroadcast(w.rcond)
+	}
+	simrt.MuUnlock(&w.mu)
 }
 
 func (w *world) doOp(p op) {
@@ -807,42 +823,37 @@ func cloneTypes(m map[[2]int]int) map[[2]int]int {
 }
 
 // doTyped writes a batch mixing typed points (field type conflicts) and invalid points (C10, C40).
+// A typed point carries field g<G> of type Y and optionally a second field g<G2> of type Y2 (packed into
+// x[2]: G | (G2+1)<<4 | Y2<<8); fields are validated in key order, so g0 comes before g1.
 func (w *world) doTyped(p op) {
 	r := w.r
 	var pts []models.Point
+	type tfield struct {
+		g, y int
+		id   uint64
+	}
 	type rec struct {
 		x    [5]int
-		id   uint64
-		want bool // exact model: accepted?
+		fs   []tfield
+		id   uint64 // id of the single value of an illegal point
+		want bool   // exact model: accepted?
 	}
 	var recs []rec
 	meas := map[int]bool{}
 	for _, x := range p.X {
-		w.nextID++
-		id := w.nextID
-		s, kind, g, y, t := x[0], x[1], x[2], x[3], x[4]
-		tags := seriesTags(s).Clone()
-		fields := models.Fields{gName(g): typedValue(y, id)}
-		switch kind {
-		case kTimeTag:
-			tags = append(tags, models.NewTag([]byte("time"), []byte("1")))
-			sort.Sort(tags)
-		case kTimeFld:
-			fields = models.Fields{"time": float64(id)}
-		case kBadUTF8:
-			tags = append(tags, models.NewTag([]byte("bad"), []byte("x\xffy")))
-			sort.Sort(tags)
+		rc := rec{x: x}
+		if isTyped(x[1]) {
+			g1, g2p, y2 := x[2]&15, (x[2]>>4)&15, (x[2]>>8)&7
+			rc.fs = append(rc.fs, tfield{g: g1 % nGFields, y: x[3]})
+			if g2p > 0 && (g2p-1)%nGFields != g1%nGFields && y2 >= 1 && y2 <= 4 {
+				rc.fs = append(rc.fs, tfield{g: (g2p - 1) % nGFields, y: y2})
+				sort.Slice(rc.fs, func(i, j int) bool { return rc.fs[i].g < rc.fs[j].g })
+			}
 		}
-		pt, err := models.NewPoint(measName(s/nTagSets), tags, fields, time.Unix(0, slotTS(t)))
-		if err != nil {
-			continue
-		}
-		pts = append(pts, pt)
-		recs = append(recs, rec{x: x, id: id})
-		meas[s/nTagSets] = true
-		w.idType[id] = y
+		recs = append(recs, rc)
+		meas[x[0]/nTagSets] = true
 	}
-	if len(pts) == 0 {
+	if len(recs) == 0 {
 		return
 	}
 	var ms []int
@@ -854,30 +865,108 @@ func (w *world) doTyped(p op) {
 		simrt.RWRLock(&w.guard[m], 0)
 	}
 	inv := w.stamp()
-	// exact expectation (one client): points are validated in batch order
+	// exact expectation (one client): points are validated in batch order, the fields of a point in key order
 	w.typePre = cloneTypes(w.typeOf)
 	wantDropped := 0
+	sim := cloneTypes(w.typeOf)
 	for i := range recs {
-		x := recs[i].x
-		k := [2]int{x[0] / nTagSets, x[2]}
-		switch x[1] {
-		case kTyped:
-			cur := w.typeOf[k]
-			if cur == 0 || cur == x[3] {
-				recs[i].want = true
-				if w.exact {
-					w.typeOf[k] = x[3]
+		rc := &recs[i]
+		if isTyped(rc.x[1]) {
+			m := rc.x[0] / nTagSets
+			conflict := -1
+			local := map[int]int{}
+			for j, f := range rc.fs {
+				cur := sim[[2]int{m, f.g}]
+				if cur == 0 {
+					cur = local[f.g]
+				}
+				if cur == 0 {
+					local[f.g] = f.y
+				} else if cur != f.y {
+					conflict = j
+					break
+				}
+			}
+			if conflict >= 0 && w.exact {
+				// The code creates the fields of a point one by one and keeps those created before it meets the
+				// conflicting one; whether such a field of a rejected point "exists" afterwards is not something the
+				// properties fix, so a rejected point never carries a brand-new field in front of the offending one.
+				var keep []tfield
+				for j, f := range rc.fs {
+					if j >= conflict || sim[[2]int{m, f.g}] != 0 {
+						keep = append(keep, f)
+					}
+				}
+				rc.fs = keep
+			}
+			if conflict < 0 {
+				rc.want = true
+				for _, f := range rc.fs {
+					sim[[2]int{m, f.g}] = f.y
 				}
 			}
 		}
-		if !recs[i].want {
+		if !rc.want {
 			wantDropped++
 		}
 	}
+	if w.exact {
+		w.typeOf = sim
+	}
+	var kept []rec
+	for _, rc := range recs {
+		s, kind, t := rc.x[0], rc.x[1], rc.x[4]
+		tags := seriesTags(s).Clone()
+		fields := models.Fields{}
+		for j := range rc.fs {
+			w.nextID++
+			rc.fs[j].id = w.nextID
+			w.idType[w.nextID] = rc.fs[j].y
+			fields[gName(rc.fs[j].g)] = typedValue(rc.fs[j].y, w.nextID)
+		}
+		if !isTyped(kind) {
+			w.nextID++
+			rc.id = w.nextID
+			w.idType[rc.id] = rc.x[3]
+			fields[gName(rc.x[2]%nGFields)] = typedValue(rc.x[3], rc.id)
+		}
+		if kind == kTimeExtra {
+			fields["time"] = float64(1)
+		}
+		switch kind {
+		case kTimeTag:
+			tags = append(tags, models.NewTag([]byte("time"), []byte("1")))
+			sort.Sort(tags)
+		case kTimeFld:
+			fields = models.Fields{"time": float64(rc.id)}
+		case kBadUTF8:
+			tags = append(tags, models.NewTag([]byte("bad"), []byte("x\xffy")))
+			sort.Sort(tags)
+		}
+		pt, err := models.NewPoint(measName(s/nTagSets), tags, fields, time.Unix(0, slotTS(t)))
+		if err != nil {
+			if !rc.want {
+				wantDropped--
+			}
+			continue
+		}
+		pts = append(pts, pt)
+		kept = append(kept, rc)
+	}
+	recs = kept
+	if len(pts) == 0 {
+		w.typePre = nil
+		for _, m := range ms {
+			simrt.RWRUnlock(&w.guard[m])
+		}
+		return
+	}
 	var evs []*model.WEv
 	for _, rc := range recs {
-		if rc.x[1] == kTyped && (rc.want || !w.exact) {
-			evs = append(evs, w.h.Write(rc.x[0], nFields+rc.x[2], slotTS(rc.x[4]), rc.id, inv))
+		if isTyped(rc.x[1]) && (rc.want || !w.exact) {
+			for _, f := range rc.fs {
+				evs = append(evs, w.h.Write(rc.x[0], nFields+f.g, slotTS(rc.x[4]), f.id, inv))
+			}
 		}
 	}
 	err := w.sh.WritePoints(context.Background(), pts)
@@ -903,10 +992,34 @@ func (w *world) doTyped(p op) {
 			e.Failed = true
 		}
 	}
+	multi := false
 	for _, rc := range recs {
-		k := [2]int{rc.x[0] / nTagSets, rc.x[2]}
-		if rc.x[1] == kTyped {
-			w.touch[k] = append(w.touch[k], [2]uint64{inv, ret})
+		if isTyped(rc.x[1]) {
+			for _, f := range rc.fs {
+				k := [2]int{rc.x[0] / nTagSets, f.g}
+				w.touch[k] = append(w.touch[k], [2]uint64{inv, ret})
+			}
+			if len(rc.fs) > 1 {
+				multi = true
+			}
+		}
+	}
+	if multi {
+		r.Probe("probe_multi_field_typed_point")
+	}
+	// C40: a field named "time" is illegal and is reported as stripped from an otherwise valid point: its data
+	// must not be stored (Engine.Type knows a key iff the cache or a TSM file holds values for it)
+	if e := w.engine(); e != nil {
+		for _, rc := range recs {
+			if rc.x[1] != kTimeExtra && rc.x[1] != kTimeFld {
+				continue
+			}
+			key := tsm1.SeriesFieldKeyBytes(string(models.MakeKey([]byte(measName(rc.x[0]/nTagSets)), seriesTags(rc.x[0]))), "time")
+			if _, terr := e.Type(key); terr == nil {
+				r.Violate("C40:invalid-field-stored", "time-field-stored", "a point of series %d carried the illegal field \"time\" (reported as stripped: %v); the engine nevertheless holds values under key %q", rc.x[0], err, key)
+				break
+			}
+			r.Probe("probe_time_field_point")
 		}
 	}
 	r.Logf("c%d wx %d points (model: %d rejected) -> dropped=%d [%d,%d] %s", p.C, len(pts), wantDropped, dropped, inv, ret, pwe.Reason)
@@ -918,7 +1031,7 @@ func (w *world) doTyped(p op) {
 		if dropped != wantDropped {
 			prop := "C40"
 			for _, rc := range recs {
-				if rc.x[1] == kTyped && !rc.want {
+				if isTyped(rc.x[1]) && !rc.want {
 					prop = "C10"
 				}
 			}
@@ -927,7 +1040,7 @@ func (w *world) doTyped(p op) {
 	} else if err == nil {
 		// every typed point of the batch was accepted: its type is the field's type now
 		for _, rc := range recs {
-			if rc.x[1] != kTyped {
+			if !isTyped(rc.x[1]) {
 				r.Violate("C40:dropped-count", "illegal-accepted", "batch with an illegal point (kind %d) was accepted without error", rc.x[1])
 			}
 		}
@@ -936,14 +1049,16 @@ func (w *world) doTyped(p op) {
 	// dropped in between or concurrently)
 	if err == nil || w.exact {
 		for _, rc := range recs {
-			if rc.x[1] != kTyped || (w.exact && !rc.want) || (!w.exact && err != nil) {
+			if !isTyped(rc.x[1]) || (w.exact && !rc.want) || (!w.exact && err != nil) {
 				continue
 			}
-			k := [2]int{rc.x[0] / nTagSets, rc.x[2]}
-			if prev, ok := w.accepted[k]; ok && prev.y != rc.x[3] && !w.droppedBetween(k[0], prev.ret, inv) {
-				r.Violate("C10:two-types", "two-types", "field %s of %s accepted type %s (write returned at %d) and later type %s (write invoked at %d) with no measurement drop in between", gName(k[1]), measName(k[0]), typeNames[prev.y], prev.ret, typeNames[rc.x[3]], inv)
+			for _, f := range rc.fs {
+				k := [2]int{rc.x[0] / nTagSets, f.g}
+				if prev, ok := w.accepted[k]; ok && prev.y != f.y && !w.droppedBetween(k[0], prev.ret, inv) {
+					r.Violate("C10:two-types", "two-types", "field %s of %s accepted type %s (write returned at %d) and later type %s (write invoked at %d) with no measurement drop in between", gName(k[1]), measName(k[0]), typeNames[prev.y], prev.ret, typeNames[f.y], inv)
+				}
+				w.accepted[k] = acceptedType{f.y, ret}
 			}
-			w.accepted[k] = acceptedType{rc.x[3], ret}
 		}
 	}
 }
@@ -1097,7 +1212,12 @@ func (w *world) read(s, f int, min, max int64, asc bool, asOf uint64, who string
 				prop = "C03"
 			}
 		}
-		r.Violate(prop+":"+class, w.context(class, asOf), "%s read series %d (%s %v) field %s [%d..%d] asc=%v at [%d,%d] returned %d points %v: %s", who, s, measName(s/nTagSets), seriesTags(s), fieldName(f), min, max, asc, inv, ret, len(got), w.fieldsOf(s/nTagSets), detail)
+		sig := w.context(class, asOf)
+		if e := w.engine(); e != nil && (class == "stale" || class == "order") {
+			key := tsm1.SeriesFieldKeyBytes(string(models.MakeKey([]byte(measName(s/nTagSets)), seriesTags(s))), fieldName(f))
+			sig += cycleTag(e.FileStore.Files(), key, asc)
+		}
+		r.Violate(prop+":"+class, sig, "%s read series %d (%s %v) field %s [%d..%d] asc=%v at [%d,%d] returned %d points %v: %s", who, s, measName(s/nTagSets), seriesTags(s), fieldName(f), min, max, asc, inv, ret, len(got), w.fieldsOf(s/nTagSets), detail)
 		return false
 	}
 	return true
@@ -1127,7 +1247,15 @@ func (w *world) dump(s, f int) string {
 	}
 	for _, tf := range e.FileStore.Files() {
 		if tf.Contains(key) {
-			out += fmt.Sprintf("{%s contains key; tombstones=%v} ", filepath.Base(tf.Path()), tf.TombstoneRange(key))
+			out += fmt.Sprintf("{%s contains key; tombstones=%v blocks:", filepath.Base(tf.Path()), tf.TombstoneRange(key))
+			var ents []tsm1.IndexEntry
+			if rd, ok := tf.(*tsm1.TSMReader); ok {
+				ents = rd.ReadEntries(key, &ents)
+			}
+			for _, en := range ents {
+				out += fmt.Sprintf(" [%d..%d]", en.MinTime, en.MaxTime)
+			}
+			out += "} "
 		}
 	}
 	if w.r.FS != nil {
@@ -1270,7 +1398,24 @@ func (w *world) hook(f *simfs.FS, ev *simfs.Event) error {
 	}
 	tear := int64(0)
 	if (ev.Op == "write" || ev.Op == "writeat" || ev.Op == "untracked") && ev.Len > 1 {
-		tear = int64(r.Fault.Choose(int(ev.Len), "tear"))
+		// torn offsets: uniform, or inside the first bytes (record headers: the 5-byte WAL entry header, the
+		// 8-byte series-segment / index-log headers), or just short of the end (checksums, trailers)
+		switch r.Fault.Pick("tearkind", 3, 2, 1) {
+		case 0:
+			tear = int64(r.Fault.Choose(int(ev.Len), "tear"))
+		case 1:
+			n := int(ev.Len) - 1
+			if n > 8 {
+				n = 8
+			}
+			tear = 1 + int64(r.Fault.Choose(n, "tear-head"))
+		case 2:
+			n := int(ev.Len) - 1
+			if n > 8 {
+				n = 8
+			}
+			tear = ev.Len - 1 - int64(r.Fault.Choose(n, "tear-tail"))
+		}
 	}
 	dst := filepath.Join(r.Dir, fmt.Sprintf("img%d", len(w.images)))
 	if f.Shadow != nil {
@@ -1376,6 +1521,7 @@ func exec(r *hx.Run, prog []json.RawMessage) {
 			wg.Add(1)
 			simrt.Spawn(fmt.Sprintf("client%d", c), func() {
 				defer wg.Done()
+				defer w.clientDone()
 				for _, p := range ops {
 					if len(r.Viol) > 0 || r.Aborted {
 						return
